@@ -70,6 +70,17 @@ TilemapEntryFailing(ps, obs, e) ==
 FrameEntryFailing(ps, e) ==
   Chk("frame.image", e.w = W(ps) /\ e.h = H(ps) /\ e.px = FrameImage(ps, e.f))
 
+\* C02 / C09: pixels that no visible layer's cel covers stay fully transparent - in particular layers hidden
+\* directly or through an ancestor contribute nothing (evaluated on small canvases only: cost)
+UncoveredFailing(ps, e) ==
+  Chk("frame.uncovered_pixels_transparent",
+      (W(ps) * H(ps) <= 64 /\ Len(e.px) = W(ps) * H(ps)) =>
+        LET ls == Contributing(ps, e.f)
+            ds == [k \in DOMAIN ls |-> Drawn(ps, CelAt(ps, e.f, ls[k]))]
+        IN \A i \in 1..(W(ps) * H(ps)) :
+             \/ e.px[i] = Transparent
+             \/ \E k \in DOMAIN ds : IsSome(SrcAt(ps, ds[k], (i - 1) % W(ps), (i - 1) \div W(ps))))
+
 \* C19: a frame in which exactly one visible layer has a cel renders exactly that cel's image
 SingleLayerFailing(ps, obs, e) ==
   LET ls == Contributing(ps, e.f) IN
@@ -129,7 +140,8 @@ Failing(ps, obs) ==
   \cup UNION {TilemapEntryFailing(ps, obs, obs.tilemaps[k]) : k \in DOMAIN obs.tilemaps}
   \cup Chk("tilemap_out_of_range", obs.tilemap_oob_none)
   \cup Chk("frames_complete", Small(nf) => Len(obs.frames) = nf /\ {obs.frames[k].f : k \in DOMAIN obs.frames} = 0..(nf - 1))
-  \cup UNION {FrameEntryFailing(ps, obs.frames[k]) \cup SingleLayerFailing(ps, obs, obs.frames[k]) : k \in DOMAIN obs.frames}
+  \cup UNION {FrameEntryFailing(ps, obs.frames[k]) \cup SingleLayerFailing(ps, obs, obs.frames[k]) \cup UncoveredFailing(ps, obs.frames[k])
+              : k \in DOMAIN obs.frames}
   \cup Chk("debug", obs.debug_ok)
 
 \* What is demanded of a sprite that loaded although the file is out of contract (Outcome = "either"):
